@@ -416,6 +416,8 @@ class ExprMixin:
             nonnull = (isinstance(test.ops[0], ast.IsNot) and positive) or (isinstance(test.ops[0], ast.Is) and not positive)
             if isinstance(v, RefV) and nonnull:
                 st.locals[test.left.id] = RefV(v.term, v.t, False)
+            if isinstance(v, Sc) and v.t.kind == 'optint' and nonnull:
+                st.locals[test.left.id] = Sc(OPTINT.acc('oi_val')(v.term), INT)
             return
         if isinstance(test, ast.Name) and positive:
             v = st.locals.get(test.id)
@@ -499,6 +501,8 @@ class ExprMixin:
             return z3.BoolVal(False)
         if isinstance(a, NoneV) or isinstance(b, NoneV):
             other = b if isinstance(a, NoneV) else a
+            if isinstance(other, Cont) and getattr(other, 'some', None) is not None:
+                return neg(other.some)
             if isinstance(other, RefV):
                 return other.term == NONE
             if isinstance(other, Sc) and other.t.kind == 'optint':
@@ -703,6 +707,9 @@ class ExprMixin:
             c = Cont(FieldLoc(v.term, fs.fid, t.sort()), t)
             if t.kind == 'list' and not st.spec:
                 st.assume(t.acc('len')(c.loc.read(st)) >= 0)      # every list has a non-negative length
+            if fs.nullable:
+                # Optional[container]: presence flag kept in a companion boolean field
+                c.some = z3.Select(st.heap_arr(fs.fid + '$some', z3.BoolSort()), v.term)
             return c
         term = z3.Select(st.heap_arr(fs.fid, t.sort()), v.term)
         if t.kind == 'ref':
